@@ -2,9 +2,10 @@
 (***************************************************************************)
 (* State machine whose states are the generated files (batches of K        *)
 (* matches) of MatchCases.                                                 *)
-(*   MODE = enum: model checking mode; the states are the batches          *)
-(*                SHARD, SHARD + NSHARD, ... of the exhaustive numbering,  *)
-(*                so the number of distinct states is the number of files. *)
+(*   MODE = enum: model checking mode; the states are the batches of the   *)
+(*                exhaustive numbering (of shard SHARD of NSHARD), walked  *)
+(*                in NCHAIN interleaved chains so that NCHAIN TLC workers  *)
+(*                can share the work; distinct states = files + NCHAIN.    *)
 (*   MODE = sim:  tlc -simulate -depth 2 -seed S; every behaviour is one   *)
 (*                batch of K sampled arm lists (length 2..5, depth-2       *)
 (*                pools, or-patterns with and without names).             *)
@@ -13,17 +14,19 @@
 (***************************************************************************)
 EXTENDS MatchCases
 CONSTANT Prop            \* "C12" | "C13" | "C14": C13 needs no run-time calls
-VARIABLES b, batch
+VARIABLES b, ch, batch
 
 Shard == StrToNat(IOEnv.SHARD)
 NShard == StrToNat(IOEnv.NSHARD)
+NChain == StrToNat(IOEnv.NCHAIN)
 WantCalls == Prop # "C13" /\ IOEnv.CALLS = "1"
 
-Init == b = -1 /\ batch = <<>>
-Next == IF Sim
-        THEN b = -1 /\ b' = 0 /\ batch' = RandBatch(0)
-        ELSE LET nb == IF b = -1 THEN Shard ELSE b + NShard
-             IN nb < NBatches /\ b' = nb /\ batch' = BatchAt(nb)
+Init == b = -1 /\ batch = <<>> /\ ch \in (IF Sim THEN {0} ELSE 0..(NChain - 1))
+Next == /\ ch' = ch
+        /\ IF Sim
+           THEN b = -1 /\ b' = 0 /\ batch' = RandBatch(0)
+           ELSE LET nb == IF b = -1 THEN Shard * NChain + ch ELSE b + NShard * NChain
+                IN nb < NBatches /\ b' = nb /\ batch' = BatchAt(nb)
 Emit == b # -1 =>
   LET id == IF Sim THEN "s" \o ToString(TLCGet("stats").traces) ELSE "b" \o ToString(b)
   IN JsonSerialize(IOEnv.OUTDIR \o "/" \o id \o ".json", BatchCase(id, batch, WantCalls))
